@@ -598,4 +598,152 @@ theorem cancelKeys_spec {env : Env} (he : EnvOk env) (b : Nat) (ks : List Nat) :
       · exact j9 k' h id (by rw [ca1]; exact h1)
 
 
+/-! ### the public calls on the mocker a cache owner (builder or struct mocker) hands out -/
+
+theorem doApply_spec {env : Env} (he : EnvOk env) {s : St} (hi : Inv env s) (o key k : Nat) (origin : Option Nat) :
+    Inv env (doApply env s o key k origin).1 ∧ ∀ f, key % 1000 ≠ f → (doApply env s o key k origin).1.text f = s.text f := by
+  obtain ⟨g1, g2, g3, _, _⟩ := getMocker_spec hi o key
+  obtain ⟨o1, o2, _, _, _, o6⟩ := setOrigin_spec g1 (getMocker s o key).2 origin
+  refine ⟨(applyCb_spec he o1 _ _).1, ?_⟩
+  intro f hne
+  have a := (applyImp_spec he o1 (getMocker s o key).2 (.cb k)).2.1 f (by rw [(o6 _).1, g3]; exact fun h => hne h.symm)
+  show (applyCb env _ _ _).1.text f = _
+  rw [(applyCb_spec he o1 _ k).2.1, a, o2, g2]
+
+theorem doRet_spec {env : Env} (he : EnvOk env) {s : St} (hi : Inv env s) (o key : Nat) (origin : Option Nat) :
+    Inv env (doRet env s o key origin).1 ∧ ∀ f, key % 1000 ≠ f → (doRet env s o key origin).1.text f = s.text f := by
+  obtain ⟨g1, g2, g3, _, _⟩ := getMocker_spec hi o key
+  obtain ⟨o1, o2, _, _, _, o6⟩ := setOrigin_spec g1 (getMocker s o key).2 origin
+  unfold doRet
+  split
+  · exact ⟨o1, fun f _ => by rw [o2, g2]⟩
+  · obtain ⟨w1, w2, _, _, w5⟩ := whens_spec o1 (getMocker s o key).2
+    refine ⟨(applyImp_spec he w1 _ _).1, ?_⟩
+    intro f hne
+    rw [(applyImp_spec he w1 (getMocker s o key).2 _).2.1 f (by rw [(w5 _).1, (o6 _).1, g3]; exact fun h => hne h.symm), w2, o2, g2]
+
+theorem doCancel_spec {env : Env} (he : EnvOk env) {s : St} (hi : Inv env s) (o key : Nat) :
+    Inv env (doCancel s o key) ∧ ∀ f, key % 1000 ≠ f → (doCancel s o key).text f = s.text f := by
+  obtain ⟨g1, g2, g3, _, _⟩ := getMocker_spec hi o key
+  refine ⟨(cancelMocker_spec he g1 _).1, ?_⟩
+  intro f hne
+  show (cancelMocker _ _).text f = _
+  rw [(cancelMocker_spec he g1 (getMocker s o key).2).2.1 f (by rw [g3]; exact fun h => hne h.symm), g2]
+
+theorem doKeep_spec {env : Env} {s : St} (hi : Inv env s) (o b key : Nat) :
+    Inv env (doKeep s o b key) ∧ (doKeep s o b key).text = s.text := by
+  have g := getMocker_spec hi o key
+  exact ⟨⟨g.1.saved, g.1.txt, g.1.reg, g.1.mg, g.1.ck⟩, g.2.1⟩
+
+theorem getStruct_spec {env : Env} {s : St} (hi : Inv env s) (b : Nat) :
+    Inv env (getStruct s b).1 ∧ (getStruct s b).1.text = s.text := by
+  have hf : Inv env (getStruct.fresh s b).1 ∧ (getStruct.fresh s b).1.text = s.text :=
+    ⟨⟨hi.saved, hi.txt, hi.reg, hi.mg, hi.ck⟩, rfl⟩
+  unfold getStruct
+  cases s.scache b with
+  | none => exact hf
+  | some o =>
+    simp only []
+    split
+    · exact hf
+    · exact ⟨hi, rfl⟩
+
+theorem structOf_spec {env : Env} {s : St} (hi : Inv env s) (b : Nat) (kept : Bool) (r : St × Nat)
+    (h : structOf s b kept = some r) : Inv env r.1 ∧ r.1.text = s.text := by
+  unfold structOf at h
+  split at h
+  · cases hs : s.shandle b with
+    | none => rw [hs] at h; cases h
+    | some o => rw [hs] at h; cases h; exact ⟨hi, rfl⟩
+  · cases h; exact getStruct_spec hi b
+
+/-- cancelling keys whose guards' targets are already pristine changes no byte -/
+theorem cancelKeys_noop {env : Env} (he : EnvOk env) (b : Nat) (ks : List Nat) : ∀ {s : St}, Inv env s →
+    (∀ k, k ∈ ks → ∀ id g, s.cache b k = some id → (s.mockers id).guard = some g → (s.guards g).applied = true →
+      s.text (k % 1000) = env.pristine (k % 1000)) → ∀ x, (cancelKeys s b ks).text x = s.text x := by
+  induction ks with
+  | nil => intro s _ _ x; rfl
+  | cons k ks ih =>
+    intro s hs hp x
+    cases hc : s.cache b k with
+    | none =>
+      have : cancelKeys s b (k :: ks) = cancelKeys s b ks := by simp [cancelKeys, hc]
+      rw [this]; exact ih hs (fun k' hk' => hp k' (List.mem_cons_of_mem _ hk')) x
+    | some id =>
+      have hdef : cancelKeys s b (k :: ks) = cancelKeys (cancelMocker s id) b ks := by simp [cancelKeys, hc]
+      obtain ⟨c1, c2, c3, c4, c5, c6, c7, c8, c9⟩ := cancelMocker_spec he hs id
+      have ht := (hs.ck b k id hc).1
+      have same : ∀ y, (cancelMocker s id).text y = s.text y := by
+        intro y
+        by_cases hy : y = (s.mockers id).target
+        · cases hgd : (s.mockers id).guard with
+          | none => simp [cancelMocker, cancelGuard, hgd, markCanceled]
+          | some g =>
+            by_cases hap : (s.guards g).applied = true
+            · rw [hy, c4 g hgd hap, ht]; exact (hp k List.mem_cons_self id g hc hgd hap).symm
+            · simp [cancelMocker, cancelGuard, hgd, markCanceled, guardUnpatch, hap]
+        · exact c2 y hy
+      rw [hdef, ih c1 ?_ x, same x]
+      intro k' hk' id' g' h1 h2 h3
+      rw [same]; rw [c5] at h1; rw [(c9 id').2.1] at h2; rw [c7] at h3
+      exact hp k' (List.mem_cons_of_mem _ hk') id' g' h1 h2 h3
+
+theorem cancelMocker_scache (s : St) (id : Nat) : (cancelMocker s id).scache = s.scache := by
+  unfold cancelMocker markCanceled cancelGuard
+  cases (s.mockers id).guard with
+  | none => rfl
+  | some g => simp only []; unfold guardUnpatch; split <;> rfl
+
+theorem cancelKeys_scache (b : Nat) (ks : List Nat) : ∀ (s : St), (cancelKeys s b ks).scache = s.scache := by
+  induction ks with
+  | nil => intro s; rfl
+  | cons k ks ih =>
+    intro s
+    unfold cancelKeys
+    cases s.cache b k with
+    | none => exact ih s
+    | some id => simp only []; rw [ih]; exact cancelMocker_scache s id
+
+/-- the pristine-targets condition that a completed `cancelKeys` establishes and later cancels preserve -/
+def Restored (env : Env) (s : St) (o : Nat) (ks : List Nat) : Prop :=
+  ∀ k, k ∈ ks → ∀ id g, s.cache o k = some id → (s.mockers id).guard = some g → (s.guards g).applied = true →
+    s.text (k % 1000) = env.pristine (k % 1000)
+
+theorem restored_after {env : Env} (he : EnvOk env) {s : St} (hi : Inv env s) (o : Nat) (ks : List Nat) :
+    Restored env (cancelKeys s o ks) o ks := by
+  obtain ⟨_, _, c, _, g, m, _, r, _⟩ := cancelKeys_spec he o ks hi
+  intro k hk id gd h1 h2 h3
+  rw [c] at h1; rw [(m id).2.1] at h2; rw [g] at h3
+  exact r k hk id gd h1 h2 h3
+
+theorem restored_preserved {env : Env} (he : EnvOk env) {s : St} (hi : Inv env s) (o o' : Nat) (ks ks' : List Nat)
+    (h : Restored env s o ks) : Restored env (cancelKeys s o' ks') o ks := by
+  obtain ⟨_, t, c, _, g, m, _, _, _⟩ := cancelKeys_spec he o' ks' hi
+  intro k hk id gd h1 h2 h3
+  rw [c] at h1; rw [(m id).2.1] at h2; rw [g] at h3
+  rcases t (k % 1000) with e | e
+  · rw [e]; exact h k hk id gd h1 h2 h3
+  · exact e
+
+/-- what `Reset` leaves behind besides the restored text: same caches, every entry of the builder and of its struct mocker cancelled -/
+theorem resetB_spec {env : Env} (he : EnvOk env) {s : St} (hi : Inv env s) (b : Nat) :
+    Inv env (resetB s b) ∧ (resetB s b).cache = s.cache ∧ (resetB s b).scache = s.scache ∧
+    (∀ key id, s.cache b key = some id → ((resetB s b).mockers id).canceled = true) ∧
+    (∀ o key id, s.scache b = some o → s.cache o key = some id → ((resetB s b).mockers id).canceled = true) := by
+  obtain ⟨ia, _, ca, ka, _, _, _, _, cna⟩ := cancelKeys_spec he b (s.keys b) hi
+  unfold resetB
+  cases hs : s.scache b with
+  | none =>
+    refine ⟨ia, ca, cancelKeys_scache _ _ _, ?_, ?_⟩
+    · intro key id h; exact cna key (hi.ck b key id h).2.1 id h
+    · intro o key id h; cases h
+  | some o =>
+    simp only []
+    obtain ⟨ib, _, cb, _, _, mb, _, _, cnb⟩ := cancelKeys_spec he o ((cancelKeys s b (s.keys b)).keys o) ia
+    refine ⟨ib, by rw [cb, ca], by rw [cancelKeys_scache, cancelKeys_scache], ?_, ?_⟩
+    · intro key id h; exact (mb id).2.2 (cna key (hi.ck b key id h).2.1 id h)
+    · intro o' key id h h2
+      cases h
+      exact cnb key (by rw [ka]; exact (hi.ck _ key id h2).2.1) id (by rw [ca]; exact h2)
+
 end C02L
